@@ -42,6 +42,7 @@ func (f FuncSpec) lean() string {
 }
 
 var whitelist = []FuncSpec{
+	{"pkg/provider", "", "isXSBooleanTrue"},
 	{"pkg/provider", "", "GetAcsUrlAndBindingForResponse"},
 	{"pkg/provider", "", "signaturePostProvided"},
 	{"pkg/provider", "", "signaturePostVerificationNecessary"},
@@ -120,10 +121,12 @@ type param struct {
 
 func main() {
 	repo := flag.String("repo", "/repo", "repository root")
+	defer func() { _ = repo }()
 	out := flag.String("out", "", "output directory for Generated/*.lean")
 	meta := flag.String("meta", "", "output json with signatures/field slices/pool")
 	shim := flag.String("shim", "", "output go export shim")
 	flag.Parse()
+	repoRoot = *repo
 	cfg := &packages.Config{Mode: packages.NeedName | packages.NeedFiles | packages.NeedSyntax | packages.NeedTypes | packages.NeedTypesInfo | packages.NeedImports | packages.NeedDeps, Dir: *repo}
 	pkgs, err := packages.Load(cfg, "./pkg/...")
 	if err != nil {
